@@ -180,18 +180,18 @@ def run(res, tier, seed):
                 hist.append("@exec")
                 k += 1
     # the abstract machine extended with exec: afterwards alt/paste/focus as before, cursor hidden, mouse off
+    rows_def = "Definition rows : list (nat * opts * list hstep * list tok * list tok) := [%s]."
     body = ["Inductive hstep := HC (c : modecmd) | HExec.",
             "Definition hist_apply (m : modes) (h : hstep) : modes := match h with HC c => Spec.Modes.apply m c | HExec => mk_modes (a_alt m) true false false false (a_paste m) (a_focus m) end.",
-            "Definition rows : list (nat * opts * list hstep * list tok * list tok) := [%s]." % ";\n ".join(rows),
             "Definition at_handover_ok (x : nat * opts * list hstep * list tok * list tok) : bool := let '(_, o, h, before, after) := x in "
             "forallb (fun sh => modes_eqb (vt_modes (vt_run sh (vt_init 80 24 [] 0) before)) defaults) [true; false].",
             "Definition after_ok (x : nat * opts * list hstep * list tok * list tok) : bool := let '(_, o, h, before, after) := x in "
             "forallb (fun sh => modes_eqb (vt_modes (vt_run sh (vt_init 80 24 [] 0) after)) (hist_apply (fold_left hist_apply h (apply_opts o)) HExec)) [true; false].",
             "Definition bad_handover := map (fun x => fst (fst (fst (fst x)))) (filter (fun x => negb (at_handover_ok x)) rows).",
             "Definition bad_after := map (fun x => fst (fst (fst (fst x)))) (filter (fun x => negb (after_ok x)) rows)."]
-    vals, _ = C.coq_eval("cases_C17", PRE, body, ["bad_handover", "bad_after"], timeout=900)
-    bad_h = C.parse_nat_list(C.parse_coq_value(vals["bad_handover"]))
-    bad_a = C.parse_nat_list(C.parse_coq_value(vals["bad_after"]))
+    head = body[:2]
+    bad_h, _ = C.coq_eval_sharded("cases_C17h", PRE + "\n".join(head) + "\n", rows, rows_def, body[2:], "bad_handover", shard=150)
+    bad_a, _ = C.coq_eval_sharded("cases_C17a", PRE + "\n".join(head) + "\n", rows, rows_def, body[2:], "bad_after", shard=150)
     res.oblige("Spec on real output (Coq: Spec.Modes over the real mode tokens): default modes when the command starts, %d execs" % len(rows), not bad_h, [cases[i] for i in bad_h[:1]])
     res.oblige("Spec on real output (Coq): after the command alt screen / paste / focus are what they were before it (for every history incl. earlier execs), cursor hidden", not bad_a, [cases[i] for i in bad_a[:1]])
     res.oblige("Spec on real runs: nothing written while the command runs; input arriving meanwhile is left for it; callback once with the command's error; input read again; view repainted", not py_bad, py_bad[:2])
